@@ -876,6 +876,7 @@ class CWorld:
     # ------------------------------------------------------------ step
 
     def step(self, i, op):
+        env.settle()
         self.steps += 1
         k = op["op"]
         if not (k in ("meta_set", "meta_del", "meta_get") and op.get("held")):
